@@ -2,6 +2,7 @@ import TucanProofs.Lemmas.Pipeline
 import TucanProofs.Lemmas.OracleNonempty
 import TucanProofs.Examples
 import TucanProofs.Lemmas.FilesPerm
+import TucanProofs.Lemmas.MoreExamples
 /-!
 # C01 — the TUCAN string is invariant under atom/bond reordering of the input
 
@@ -50,5 +51,10 @@ theorem C01_oracle_contract_inhabited : Nonempty CanonOracle := CanonOracle.none
 
 /-- non-vacuity: a concrete molecule meets the structural hypotheses -/
 example : exGraph.WF ∧ exGraph.Simple := ⟨exGraph_wf, exGraph_simple⟩
+
+/-- non-vacuity of `C01_files_same_string`: a molecule and the same molecule listed in reverse order (bonds
+renumbered, one written the other way round, another bond type) -/
+example : MoreExamples.molRev.Ok ∧ SameMolecule MoreExamples.rev MoreExamples.rev FilesExample.mol MoreExamples.molRev :=
+  ⟨MoreExamples.molRev_ok, MoreExamples.sameMolecule_rev⟩
 
 end Tucan
